@@ -630,6 +630,27 @@ pub fn replay_c09(_cfg: &Cfg, input: &Value, sink: &Arc<Sink>) {
     c09_check(&seq, sink);
 }
 
+pub fn bench_git(threads: usize) {
+    let start = std::time::Instant::now();
+    let handles: Vec<_> = (0..threads)
+        .map(|i| {
+            std::thread::spawn(move || {
+                let pair = crate::cli::TreePair::new("bench");
+                for k in 0..200 {
+                    pair.set_old("x.py", &format!("a\nb{i}\n"));
+                    pair.set_new("x.py", &format!("a\nc{k}\n"));
+                    let _ = pair.diff(3, &[]);
+                }
+            })
+        })
+        .collect();
+    for h in handles {
+        h.join().unwrap();
+    }
+    let dt = start.elapsed().as_secs_f64();
+    eprintln!("git: {threads} threads × 200 diffs: {:.2}s = {:.0} diffs/s", dt, (threads * 200) as f64 / dt);
+}
+
 /// Throughput probe (not a check): `bwmc BENCH`.
 pub fn bench(threads: usize) {
     let start = std::time::Instant::now();
